@@ -141,7 +141,7 @@ def reachable_calls(program, roots, follow=lambda fn: True):
                     nm = fn.get("name")
                     for cr in program.crates.values():
                         for imp in cr.impls:
-                            if imp.get("trait") == fn["trait"]:
+                            if (imp.get("trait_key") == fn.get("trait_key")) if (imp.get("trait_key") and fn.get("trait_key")) else (imp.get("trait") == fn["trait"]):
                                 for it in imp["items"]:
                                     if it["name"] == nm and it["key"] in program.by_key:
                                         cands.append(program.by_key[it["key"]])
